@@ -292,6 +292,202 @@ def judge(ctx, traces, label):
     ctx.cov.setdefault('groups', {})[label] = dict(cases=len(traces), accepted=nacc)
 
 
+
+# ------------------------------------------------------------------ history dimension (one instance, many operations)
+HDRIVER = 'drivers/c19_envobj.py'
+CTL = [ONE, ONE, Z, ONE, Z]
+IX = [1, 2]
+H_INIT = dict(lv=[Z, ONE, Z], tm=[ONE, ONE], cv=[LIN], rel=[], loop=[], off=Z)
+H_ALPHABET = [
+    dict(n='fmt'), dict(n='ifmt'), dict(n='at', t=32), dict(n='at', t=200),
+    dict(n='ugenE', ctl=CTL), dict(n='ugenI', ix=IX), dict(n='ugenEI', ctl=CTL, ix=IX), dict(n='ugenIE', ctl=CTL, ix=IX),
+    dict(n='set_levels', lv=[ONE, [1, 2], [-1, 2]]), dict(n='set_times', tm=[[1, 2], ONE]),
+    dict(n='set_curves', cv=[cv('hold'), LIN]), dict(n='set_release_node', node=[1]), dict(n='set_loop_node', node=[0]),
+    dict(n='set_offset', off=ONE)]
+
+
+def random_history(rnd, length):
+    n = rnd.randint(1, 4)
+    pool = ALL_CURVES[:-1] + [cnum(rnd.randint(-8, 8), 2)]
+
+    def levels():
+        if rnd.random() < 0.4:
+            return [[rnd.randint(1, 16), 8] for _ in range(n + 1)]
+        return [rlat(rnd, -2, 2) for _ in range(n + 1)]
+
+    def times():
+        return [[rnd.choice([1, 2, 3, 4, 8, 12, 16]), 8] for _ in range(n)]
+
+    def curves():
+        return [rnd.choice(pool) for _ in range(rnd.randint(1, n))]
+
+    def anode():
+        return [rnd.randrange(n)] if rnd.random() < 0.7 else []
+    init = dict(lv=levels(), tm=times(), cv=curves(), rel=anode() if rnd.random() < 0.3 else [], loop=[],
+                off=rlat(rnd, 0, 1) if rnd.random() < 0.3 else Z)
+    ev = []
+    for _ in range(length):
+        x = rnd.random()
+        if x < 0.45:
+            k = rnd.choice(['fmt', 'ifmt', 'at', 'at', 'ugenE', 'ugenI', 'ugenEI', 'ugenIE'])
+            e = dict(n=k)
+            if k == 'at':
+                e['t'] = rnd.randint(-8, 64 * 2 * n + 16)
+            if k.startswith('ugen'):
+                e['ctl'] = [ONE, [rnd.randint(1, 16), 8], [rnd.randint(-8, 8), 8], [rnd.randint(1, 16), 8], [rnd.choice([0, 2]), 1]]
+                e['ix'] = [rnd.randint(0, 16), 8]
+        else:
+            k = rnd.choice(['set_levels', 'set_times', 'set_curves', 'set_release_node', 'set_loop_node', 'set_offset'])
+            e = dict(n=k)
+            if k == 'set_levels':
+                e['lv'] = levels()
+            elif k == 'set_times':
+                e['tm'] = times()
+            elif k == 'set_curves':
+                e['cv'] = curves()
+                e['scalar_cv'] = rnd.randrange(2)
+            elif k == 'set_offset':
+                e['off'] = rlat(rnd, 0, 2)
+            else:
+                e['node'] = anode()
+        ev.append(e)
+    return dict(init=init, fl=rnd.randrange(2), ev=ev)
+
+
+def run_hist_cases(ctx, cases):
+    for i, c in enumerate(cases):
+        c['id'] = i
+    n = len(cases)
+    per = max(1, (n + 15) // 16)
+    outs = ctx.run_drivers(HDRIVER, [dict(cases=cases[i:i + per]) for i in range(0, n, per)])
+    traces = [t for o in outs for t in o['traces']]
+    if len(traces) != n:
+        raise MachineryError('history driver returned %d traces for %d cases' % (len(traces), n))
+    return traces
+
+
+def hist_brief(t):
+    return dict(init=t['init'], ops=[{k: v for k, v in e.items() if k in ('n', 't', 'lv', 'tm', 'cv', 'node', 'off')
+                                      and v not in ([], None)} for e in t['ev']])
+
+
+def judge_hist(ctx, traces, label):
+    verdicts = ctx.validate('TraceEnvObj', 'TraceEnvObj.cfg', traces)
+    nacc = 0
+    for t in traces:
+        names = [e['n'] for e in t['ev']]
+        if any(x.startswith('set_') for x in names) and not names[-1].startswith('set_'):
+            ctx.nontrivial(hist_brief(t))
+        v = verdicts[t['id']]
+        if v is None:
+            nacc += 1
+            continue
+        at, why = v
+        ev = t['ev'][at - 1]
+        c = dict(init=t['init'], fl=t.get('fl', 0),
+                 ev=[{k: v for k, v in e.items() if k not in ('r', 'r2')} for e in t['ev']])
+        sig = 'envobj:stale-cache' if why.endswith(':stale-cache') else 'envobj:%s' % why
+        ctx.violation(sig,
+                      'one Env instance, operations %s: observation %d (%s) is not the one of the current specification '
+                      '(%s): observed %s %s; history %s'
+                      % (names[:at], at, ev['n'], why, ev['r'], ev['r2'] if ev['n'] in ('ugenEI', 'ugenIE') else '',
+                         hist_brief(t)),
+                      dict(kind='history', case=c, rejected_at=at, why=why))
+    ctx.cov['evaluations'] += sum(len(t['ev']) for t in traces)
+    ctx.cov.setdefault('groups', {})[label] = dict(cases=len(traces), accepted=nacc)
+    return {t['id'] for t in traces if verdicts[t['id']] is not None}
+
+
+def histories(ctx, thorough, rnd):
+    acts = ('Fmt', 'IFmt', 'At', 'UgenE', 'UgenI', 'UgenBoth', 'Assign')
+    r = ctx.model_check('EnvObj', 'EnvObj_thorough.cfg' if thorough else 'EnvObj.cfg', require_cover=acts, timeout=900)
+    ctx.expect_ok(r, 'Env instance: cached arrays dropped on assignment answer the current specification')
+    # sensitivity: without dropping the kept arrays the same invariant must fail
+    from harness import tlc
+    r = tlc.run('EnvObj', 'EnvObj_stale.cfg', ctx.work, workers=4, timeout=300)
+    if r.ok or 'Coherent' not in r.violated:
+        raise MachineryError('EnvObj_stale: the stale-array history was not found (vacuous invariant?)')
+    ctx.cov['model_runs'].append(dict(module='EnvObj', cfg='EnvObj_stale.cfg', label='expected violation of Coherent',
+                                      **r.summary()))
+    cases = []
+    depth = 3
+    for h in itertools.product(H_ALPHABET, repeat=depth):
+        if h[-1]['n'].startswith('set_'):
+            continue            # nothing is observed after the last assignment
+        cases.append(dict(init=H_INIT, fl=0, ev=[dict(e) for e in h]))
+    if thorough:      # longer: two assignments then every pair of observations, in both orders
+        sets = [e for e in H_ALPHABET if e['n'].startswith('set_')]
+        obs = [e for e in H_ALPHABET if not e['n'].startswith('set_')]
+        for o0 in obs:
+            for s1 in sets:
+                for o1 in obs:
+                    for s2 in sets:
+                        for o2 in obs[:4]:
+                            cases.append(dict(init=H_INIT, fl=0, ev=[dict(x) for x in (o0, s1, o1, s2, o2)]))
+    n_ex = len(cases)
+    nr = 3000 if thorough else 300
+    cases += [random_history(rnd, rnd.randint(4, 12)) for _ in range(nr)]
+    # S->C: histories simulated by TLC from the instance model, with the answers it prescribes
+    nsim = 400 if thorough else 25
+    behs, r = tlc.simulate_behaviours('EnvObj', 'EnvObj_sim.cfg', ctx.work, num=nsim, depth=8, seed=ctx.seed + 3,
+                                      timeout=600)
+    ctx.cov['transitions'] += r.generated
+    sim_expect = {}
+    for b in behs:
+        init = b[0][1]['spec']
+        ev, exp = [], []
+        prev = init
+        for act, st in b[1:]:
+            n = st['last']['n']
+            sp = st['spec']
+            e = dict(n=n)
+            if n == 'at':
+                e['t'] = st['last']['t']
+            elif n in ('ugenE', 'ugenEI'):
+                e['ctl'] = CTL
+            if n in ('ugenI', 'ugenEI'):
+                e['ix'] = IX
+            if n == 'set_levels':
+                e['lv'] = sp['lv']
+            elif n == 'set_times':
+                e['tm'] = sp['tm']
+            elif n == 'set_curves':
+                e['cv'] = sp['cv']
+            elif n == 'set_release_node':
+                e['node'] = sp['rel']
+            elif n == 'set_loop_node':
+                e['node'] = sp['loop']
+            elif n == 'set_offset':
+                e['off'] = sp['off']
+            ev.append(e)
+            exp.append(st['last']['obs'])
+            prev = sp
+        if ev:
+            sim_expect[len(cases)] = exp
+            cases.append(dict(init=init, fl=0, ev=ev))
+    traces = run_hist_cases(ctx, cases)
+    rejected = judge_hist(ctx, traces, 'instance histories')
+    nrep = 0
+    for i, exp in sim_expect.items():
+        t = traces[i]
+        nrep += 1
+        if t['id'] in rejected:
+            continue            # already decided (and reported) by the trace specification
+        for k, (e, x) in enumerate(zip(t['ev'], exp)):
+            if e['n'].startswith('set_'):
+                continue
+            got = [e['r']['v'], e['r2']['v']] if e['n'] == 'ugenEI' else (e['r']['v'][0] if e['n'] == 'at' and e['r']['v'] else e['r']['v'])
+            if e['r']['k'] != 'ok' or got != x:
+                ctx.violation('envobj:replay:%s' % e['n'],
+                              'replayed instance history of the model: %s answered %s, the model %s; history %s'
+                              % (e['n'], got, x, hist_brief(t)),
+                              dict(kind='history', case=dict(init=t['init'], fl=0, ev=[{a: b for a, b in q.items() if a not in ('r', 'r2')} for q in t['ev']]),
+                                   rejected_at=k + 1, why='replay'))
+                break
+    ctx.cov['instance_histories'] = dict(exhaustive=n_ex, depth=depth, random=nr, simulated_replayed=nrep)
+    ctx.sample(dict(history=hist_brief(traces[n_ex]), answers=[e['r']['v'][:8] for e in traces[n_ex]['ev']][:6]))
+
+
 def run(ctx):
     thorough = not ctx.quick
     rnd = random.Random(ctx.seed + 19)
@@ -339,6 +535,11 @@ def run(ctx):
     ctx.cov['ugen_cases'] = sum(1 for t in traces for e in t['ev'] if e['n'] == 'ugen')
     ctx.cov['at_queries'] = sum(1 for t in traces for e in t['ev'] if e['n'] == 'at')
 
+    # 2b. one instance, histories of operations
+    t1 = time.time()
+    histories(ctx, thorough, rnd)
+    stage['histories'] = round(time.time() - t1, 1)
+    t1 = time.time()
     # 3. S->C: envelopes and values produced by the specification replayed on the real class
     from harness import tlc
     nsim = 400 if thorough else 25
@@ -394,6 +595,11 @@ def run(ctx):
 
 def replay(ctx, rp):
     c = rp['replay']['case']
+    if rp['replay'].get('kind') == 'history':
+        traces = run_hist_cases(ctx, [c])
+        judge_hist(ctx, traces, 'replay')
+        ctx.sample(dict(history=hist_brief(traces[0]), observed=[e['r'] for e in traces[0]['ev']][:6]))
+        return
     traces = run_cases(ctx, [c])
     judge(ctx, traces, 'replay')
     ctx.sample(dict(call=describe(c), observed=[e['r'] for e in traces[0]['ev']][:6]))
